@@ -7,6 +7,7 @@ import (
 	"math/rand"
 	"strings"
 	"sync"
+	"time"
 
 	goat "github.com/avos-io/goat"
 	"github.com/avos-io/goat/gen/goatorepo"
@@ -222,6 +223,9 @@ func c12One(tier string, _ *c12Env, seq []*wire.Rpc, syms []int, res *core.Resul
 	return c12OneMode(tier, seq, syms, res, desc, false)
 }
 
+// c12SlowReader makes the half-duplex peer wait 1.2 s before it starts reading.
+var c12SlowReader bool
+
 // c12OneMode: halfDuplex = the peer writes its whole batch (sequence + probe) before it reads anything.
 func c12OneMode(tier string, seq []*wire.Rpc, syms []int, res *core.Result, desc func() string, halfDuplex bool) bool {
 	goat.VerifResetTracking()
@@ -282,6 +286,11 @@ func c12OneMode(tier string, seq []*wire.Rpc, syms []int, res *core.Result, desc
 			cancel()
 			<-fed
 			return false
+		}
+		if c12SlowReader {
+			// ... and not for another 1.2 s (of real time): answers that had to wait are still owed
+			time.Sleep(1200 * time.Millisecond)
+			res.Stat("half_duplex_slow_reader_sequences", 1)
 		}
 		wire.NewPeer(ctx, l.A, react)
 	}
@@ -406,6 +415,18 @@ func c12Desc(syms []int) string {
 	return "[" + strings.Join(parts, ", ") + "]"
 }
 
+// hasBodyForUnknown: the sequence contains at least two envelopes that are owed a reset.
+func hasBodyForUnknown(syms []int) bool {
+	n := 0
+	for _, s := range syms {
+		switch c12Shapes[s%c12NShapes] {
+		case "body", "bad-body", "empty-body", "body+trailer", "open-bad-bin-md":
+			n++
+		}
+	}
+	return n >= 2
+}
+
 func c12Run(tier string, seed int64, idx int) *core.Result {
 	c := c12List(tier)[idx]
 	r := rng(seed, idx, "c12")
@@ -466,6 +487,7 @@ func c12Run(tier string, seed int64, idx int) *core.Result {
 			runSyms(syms)
 		}
 	case "half-duplex":
+		slowDone := false
 		// symbols that never open a stream (so that no live handler can block the read loop by design)
 		// and at most 6 unary-type requests (8 workers; their replies wait for the peer to read)
 		var pool, unaryish []int
@@ -497,7 +519,10 @@ func c12Run(tier string, seed int64, idx int) *core.Result {
 			evals++
 			core.Cursor("half-duplex " + c12Desc(syms))
 			sy := syms
+			c12SlowReader = !slowDone && hasBodyForUnknown(sy) // once per case
+			slowDone = slowDone || c12SlowReader
 			c12OneMode(tier, seq, sy, res, func() string { return "half-duplex " + c12Desc(sy) }, true)
+			c12SlowReader = false
 		}
 	case "mutate":
 		// field-level mutations of a valid conversation: a unary call, a bidi stream with two bodies and half-close
@@ -584,7 +609,7 @@ func init() {
 	core.Register(&core.Prop{
 		ID:         "C12",
 		Level:      "exploration",
-		Rule:       "alphabet = 26 envelope shapes x 2 stream ids (52 symbols); ALL sequences of length <= 3 (quick: 143 364) / <= 4 (thorough: 7 454 980) are fed by a scripted peer to a fresh server connection, each followed by a valid probe request that must be answered correctly, a reference-dispatcher check (unary handler invocation count in the allowed range, no handler for wrong destination / malformed requests, one reset per body addressed to a never-opened id), and the end of the connection after which Serve must return; plus sequences of 2..12 envelopes that open no stream fed by a half-duplex peer (it writes the whole batch and the probe before reading anything), seeded field-level mutations of a valid conversation and random sequences of length 5..40 (and 10^5 of length 5 in thorough). distinct_nontrivial = enumerated sequences (all distinct by construction) + distinct other batches.",
+		Rule:       "alphabet = 26 envelope shapes x 2 stream ids (52 symbols); ALL sequences of length <= 3 (quick: 143 364) / <= 4 (thorough: 7 454 980) are fed by a scripted peer to a fresh server connection, each followed by a valid probe request that must be answered correctly, a reference-dispatcher check (unary handler invocation count in the allowed range, no handler for wrong destination / malformed requests, one reset per body addressed to a never-opened id), and the end of the connection after which Serve must return; plus sequences of 2..12 envelopes that open no stream fed by a half-duplex peer (it writes the whole batch and the probe before reading anything; now and then it waits another 1.2 s of real time before it reads), seeded field-level mutations of a valid conversation and random sequences of length 5..40 (and 10^5 of length 5 in thorough). distinct_nontrivial = enumerated sequences (all distinct by construction) + distinct other batches.",
 		Plan:       func(tier string, seed int64) int { return len(c12List(tier)) },
 		Run:        c12Run,
 		Exhaustive: func(string) bool { return true },
